@@ -156,11 +156,15 @@ Definition will_props (w : will) : option pprops :=
   | None => None
   end.
 
+(** a will is published iff its topic is valid utf8 and not empty ([MQTT-4.7.3-1]) *)
+Definition will_deliverable (w : will) : bool :=
+  utf8_valid (w_topic w) && match w_topic w with [] => false | _ :: _ => true end.
+
 Lemma handle_last_will_retained st client st' :
   handle_last_will st client = Ok st' ->
   dl_retained (r_datalog st') =
     match al_get str_eqb client (r_wills st) with
-    | Some w => if utf8_valid (w_topic w)
+    | Some w => if will_deliverable w
                 then retain_map (w_topic w) (will_publish w, will_props w) (dl_retained (r_datalog st))
                 else dl_retained (r_datalog st)
     | None => dl_retained (r_datalog st)
@@ -170,14 +174,16 @@ Proof.
   destruct (al_get str_eqb client (r_wills st)) as [w|]; [|okinv; reflexivity].
   fold (will_publish w) in H. fold (will_props w) in H. cbn [p_topic will_publish] in H.
   fold (will_publish w) in H.
-  destruct (utf8_valid (w_topic w)); cbn [negb] in H; [|okinv; reflexivity].
+  unfold will_deliverable.
+  destruct (utf8_valid (w_topic w)); cbn [negb andb] in H |- *; [|okinv; reflexivity].
+  destruct (w_topic w) as [|t0 tr] eqn:Et; [okinv; reflexivity|]. rewrite <- Et in *.
   okinv. frames. rewrite <- retain_update_map.
   unfold Kp, Kw in *. rewrite !retain_update_map in *. rsimpl_all. intuition congruence.
 Qed.
 
 Lemma c15_store_will st client st' w :
   handle_last_will st client = Ok st' -> al_get str_eqb client (r_wills st) = Some w ->
-  utf8_valid (w_topic w) = true -> store_ok (dl_retained (r_datalog st)) ->
+  utf8_valid (w_topic w) = true -> w_topic w <> [] -> store_ok (dl_retained (r_datalog st)) ->
   let t := w_topic w in
   let m := dl_retained (r_datalog st) in
   let m' := dl_retained (r_datalog st') in
@@ -187,7 +193,8 @@ Lemma c15_store_will st client st' w :
   (forall t', t' <> t -> al_get str_eqb t' m' = al_get str_eqb t' m) /\
   store_ok m'.
 Proof.
-  intros H Hw Hu Hok. apply handle_last_will_retained in H. rewrite Hw, Hu in H.
+  intros H Hw Hu Hne Hok. apply handle_last_will_retained in H. unfold will_deliverable in H. rewrite Hw, Hu in H.
+  destruct (w_topic w) as [|t0 tr] eqn:Et; [congruence|]. rewrite <- Et in *. cbn [andb] in H.
   cbn zeta. rewrite H.
   exact (retain_map_spec (w_topic w) (will_publish w, will_props w) _ Hok).
 Qed.
@@ -252,7 +259,7 @@ Definition ev_op (st : rstate) (o : rop) : list ev :=
       end
   | OpWill c =>
       match al_get str_eqb c (r_wills st) with
-      | Some w => if utf8_valid (w_topic w) then [(w_topic w, (will_publish w, will_props w))] else []
+      | Some w => if will_deliverable w then [(w_topic w, (will_publish w, will_props w))] else []
       | None => []
       end
   | _ => []
@@ -324,7 +331,7 @@ Proof.
     all: frames; unfold Kp, Kw in *; rsimpl_all; intuition congruence.
   - (* OpWill *)
     okinv. match goal with E : handle_last_will _ _ = Ok _ |- _ => apply handle_last_will_retained in E; rewrite E end.
-    destruct (al_get str_eqb client (r_wills st)) as [w|]; [destruct (utf8_valid (w_topic w))|]; reflexivity.
+    destruct (al_get str_eqb client (r_wills st)) as [w|]; [destruct (will_deliverable w)|]; reflexivity.
 Qed.
 
 Lemma history_sound ops : forall st st' outs,
